@@ -28,7 +28,9 @@ RULE = ("case = 1-3 fibertrees of one common depth 1-3, each with its own leaf d
         "single-deep-leaf differences, one-sided tails, different defaults and different rank ids; "
         "observation = per tree isEmpty, countValues (fiber and tensor), snapshot of nonEmpty(), "
         "nonEmpty()==t both ways, deepcopy==t both ways (fiber and tensor), snapshots of the copy and of the operand "
-        "afterwards; the full i x j matrices of Fiber == and Tensor ==. distinct = distinct canonical "
+        "afterwards; for each of copy(), copy(preserve_owner=False), Tensor.fromFiber(ids, owned root), "
+        "root.copy(preserve_owner=False): copy==original both ways and isEmpty / countValues / nonEmpty / "
+        "snapshot of the free-standing copy; the full i x j matrices of Fiber == and Tensor ==. distinct = distinct canonical "
         "JSON of the case; non-trivial = at least two trees and at least one stored element")
 TRUSTED = ["Coq 8.16.1 kernel (coqc; coqchk in the thorough tier); vm_compute used; native_compute not used",
            "Print Assumptions of every C12 theorem: Closed under the global context (no axioms)",
@@ -433,12 +435,35 @@ def build_item(it, depth):
     return F, T, keep
 
 
+def copy_rows(F, T, it):
+    """the other public copy forms, each used as a free-standing object:
+    [copy==original, original==copy, copy.isEmpty(), copy.countValues(), nonEmpty snapshot, snapshot]"""
+    from fibertree import Tensor
+    names = ["R%d" % k for k in it["ids"]]
+    d = it["d"]
+    dflt = None if d == NONE_D else U.dress(d)
+    R = T.getRoot()
+    # Tensor.setRoot copies a root that already belongs to a tensor
+    T2 = Tensor.fromFiber(rank_ids=names, fiber=R, shape=(list(it["shape"]) or None), default=dflt)
+    forms = [(F, F.copy()),
+             (F, F.copy(preserve_owner=False)),
+             (R, T2.getRoot()),
+             (R, R.copy(preserve_owner=False))]
+    rows = []
+    for orig, c in forms:
+        rows.append([bool(c == orig), bool(orig == c), bool(c.isEmpty()), int(c.countValues()),
+                     U.snap(c.nonEmpty()), U.snap(c)])
+    return rows, T2
+
+
 def run_impl(case):
     import copy as _copy
     depth = case["depth"]
     built = [build_item(it, depth) for it in case["items"]]
     items = []
-    for F, T, _ in built:
+    cps = []
+    keep = []
+    for (F, T, _), it in zip(built, case["items"]):
         e = F.isEmpty()
         cnt = F.countValues()
         ne = F.nonEmpty()
@@ -448,6 +473,11 @@ def run_impl(case):
         dc = _copy.deepcopy(F)
         dc1 = (dc == F)
         dc2 = (F == dc)
+        # the other copy forms; taken before the tensor-level queries and the == matrices, so an
+        # original disturbed by being copied shows up there
+        rows, t2 = copy_rows(F, T, it)
+        cps.append(rows)
+        keep.append(t2)
         tcnt = T.countValues()
         tdc = _copy.deepcopy(T)
         tdc1 = (tdc == T)
@@ -458,14 +488,16 @@ def run_impl(case):
     teqs = [bool(Ti == Tj) for _, Ti, _ in built for _, Tj, _ in built]
     for row, (F, _, _) in zip(items, built):
         row.append(U.snap(F))
-    return [items, eqs, teqs]
+    return [items, eqs, teqs, cps]
 
 
 def repro_py(case):
     return ("import sys; sys.path.insert(0,'/verif/harness'); sys.path.insert(0,'/verif/harness/props')\n"
             "import c12\ncase = %r\nobs = c12.run_impl(case)\n"
             "print('per tree [isEmpty,count,nonEmpty,ne==t,t==ne,dc==t,t==dc,Tcount,Tdc==T,T==Tdc,dc,t]:')\n"
-            "for r in obs[0]: print('  ', r)\nprint('Fiber ==', obs[1])\nprint('Tensor ==', obs[2])\n" % (case,))
+            "for r in obs[0]: print('  ', r)\nprint('Fiber ==', obs[1])\nprint('Tensor ==', obs[2])\n"
+            "print('copies per tree (copy(), copy(preserve_owner=False), fromFiber(owned root), root.copy(False)) "
+            "[c==o,o==c,isEmpty,count,nonEmpty,snapshot]:')\nfor r in obs[3]: print('  ', r)\n" % (case,))
 
 
 def shrinks(case):
